@@ -313,9 +313,12 @@ class Envelope:
         if self.measured:
             raise ValueError("Envelope has already been destroyed")
 
-        # Check if given states are part of this envelope
+        # Check if given states are part of this envelope (by identity, two
+        # Fock states holding the same label compare equal)
         for s in states:
-            assert s in [self.fock, self.polarization]
+            assert s is self.fock or s is self.polarization
+            if s.measured:
+                raise ValueError("State was already destructively measured")
 
         outcomes = {}
         reshape_shape = []
@@ -876,7 +879,7 @@ class Envelope:
             raise ValueError("Too many states given")
 
         for s in states_list:
-            if s not in [self.polarization, self.fock]:
+            if s is not self.polarization and s is not self.fock:
                 raise ValueError(
                     "Given states have to be members of the envelope, "
                     "use env.fock and env.polarization"
